@@ -73,6 +73,29 @@ FUNCS = [
     ("C01", "dataiter/data_frame.py", "DataFrame.__getattr__", [], "DataFrame_getattr"),
     ("C01", "dataiter/data_frame.py", "DataFrame.__getattribute__", [], "DataFrame_getattribute"),
     ("C12", "dataiter/util.py", "xopen", [], "util_xopen"),
+    ("C02", "dataiter/data_frame.py", "DataFrame.filter", [], "DataFrame_filter"),
+    ("C02", "dataiter/data_frame.py", "DataFrame.filter_out", [], "DataFrame_filter_out"),
+    ("C02", "dataiter/data_frame.py", "DataFrame.slice", [], "DataFrame_slice"),
+    ("C02", "dataiter/data_frame.py", "DataFrame.slice_off", [], "DataFrame_slice_off"),
+    ("C02", "dataiter/data_frame.py", "DataFrame.drop_na", [], "DataFrame_drop_na"),
+    ("C02", "dataiter/data_frame.py", "DataFrame.unique", [], "DataFrame_unique"),
+    ("C09", "dataiter/data_frame.py", "DataFrame.select", [], "DataFrame_select"),
+    ("C09", "dataiter/data_frame.py", "DataFrame.unselect", [], "DataFrame_unselect"),
+    ("C09", "dataiter/data_frame.py", "DataFrame.rename", [], "DataFrame_rename"),
+    ("C09", "dataiter/data_frame.py", "DataFrame.cbind", [], "DataFrame_cbind"),
+    ("C09", "dataiter/data_frame.py", "DataFrame.update", [], "DataFrame_update"),
+    ("C05", "dataiter/data_frame.py", "DataFrame.left_join", [], "DataFrame_left_join"),
+    ("C05", "dataiter/data_frame.py", "DataFrame.inner_join", [], "DataFrame_inner_join"),
+    ("C05", "dataiter/data_frame.py", "DataFrame.semi_join", [], "DataFrame_semi_join"),
+    ("C05", "dataiter/data_frame.py", "DataFrame.anti_join", [], "DataFrame_anti_join"),
+    ("C05", "dataiter/data_frame.py", "DataFrame._split_join_by", [], "DataFrame_split_join_by"),
+    ("C05", "dataiter/data_frame.py", "DataFrame._get_join_indices", [], "DataFrame_get_join_indices"),
+    ("C15", "dataiter/list_of_dicts.py", "ListOfDicts.filter", [], "ListOfDicts_filter"),
+    ("C15", "dataiter/list_of_dicts.py", "ListOfDicts.filter_out", [], "ListOfDicts_filter_out"),
+    ("C15", "dataiter/list_of_dicts.py", "ListOfDicts.unique", [], "ListOfDicts_unique"),
+    ("C15", "dataiter/list_of_dicts.py", "ListOfDicts.sort", [], "ListOfDicts_sort"),
+    ("C16", "dataiter/list_of_dicts.py", "ListOfDicts.left_join", [], "ListOfDicts_left_join"),
+    ("C16", "dataiter/list_of_dicts.py", "ListOfDicts.semi_join", [], "ListOfDicts_semi_join"),
 ]
 
 
@@ -118,6 +141,7 @@ class Translator:
         self.params = []          # (lean name, lean type) in order of first use
         self.pnames = {}
         self.assigned = set()     # (object text, attribute) assigned so far on the current path
+        self.sym_depth = 0        # > 0 inside loop bodies, comprehensions and lambdas: tests are terms, not evaluated
 
     # ---- parameters -----------------------------------------------------------------------
     def param(self, text, ty):
@@ -148,7 +172,7 @@ class Translator:
                 and len(e.args) == 2 and not e.keywords:
             return all(self.is_int(a, env) for a in e.args)
         if isinstance(e, ast.IfExp):
-            return self.is_int(e.body, env) and self.is_int(e.orelse, env)
+            return self.sym_depth == 0 and self.is_int(e.body, env) and self.is_int(e.orelse, env)
         return False
 
     def int_(self, e, env):
@@ -209,6 +233,9 @@ class Translator:
                     args.append(self.term(a, env))
             for kw in e.keywords:
                 args.append(f"(Term.app {lean_str('=' + (kw.arg or '**'))} [{self.term(kw.value, env)}])")
+            if isinstance(e.func, ast.Name) and e.func.id in env and env[e.func.id][0] == "term":
+                # a call of a local that holds a callable (e.g. `extract = operator.itemgetter(...)`; `extract(item)`)
+                return f"(Term.app \"call\" [{', '.join([env[e.func.id][1]] + args)}])"
             if isinstance(e.func, ast.Attribute) and self.root_is_local(e.func.value, env):
                 recv = self.term(e.func.value, env)
                 return f"(Term.app {lean_str('.' + e.func.attr)} [{', '.join([recv] + args)}])"
@@ -217,8 +244,11 @@ class Translator:
             v = self.term(e.value, env)
             if isinstance(e.slice, ast.Slice):
                 if e.slice.step is not None:
-                    raise Unsupported("slice step")
-                s = f"(Term.slice {self.opt_int(e.slice.lower, env)} {self.opt_int(e.slice.upper, env)})"
+                    s = self.term(e.slice, env)
+                elif all(b is None or self.is_int(b, env) for b in (e.slice.lower, e.slice.upper)):
+                    s = f"(Term.slice {self.opt_int(e.slice.lower, env)} {self.opt_int(e.slice.upper, env)})"
+                else:
+                    s = self.term(e.slice, env)
             else:
                 s = self.term(e.slice, env)
             return f"(Term.app \"getitem\" [{v}, {s}])"
@@ -236,6 +266,8 @@ class Translator:
         if isinstance(e, ast.BoolOp):
             return f"(Term.app {lean_str(type(e.op).__name__)} [{', '.join(self.term(v, env) for v in e.values)}])"
         if isinstance(e, ast.IfExp):
+            if self.sym_depth > 0:
+                return f"(Term.app \"ifexp\" [{self.term(e.test, env)}, {self.term(e.body, env)}, {self.term(e.orelse, env)}])"
             return (f"(if {self.test(e.test, env)} then {self.term(e.body, env)} else {self.term(e.orelse, env)})")
         if isinstance(e, (ast.Tuple, ast.List)):
             return f"(Term.app {lean_str(type(e).__name__.lower())} [{', '.join(self.term(v, env) for v in e.elts)}])"
@@ -243,6 +275,46 @@ class Translator:
             parts = [self.term(e.left, env)] + [self.term(c, env) for c in e.comparators]
             ops = "/".join(type(o).__name__ for o in e.ops)
             return f"(Term.app {lean_str(ops)} [{', '.join(parts)}])"
+        if isinstance(e, ast.Slice):
+            parts = [self.term(b, env) if b is not None else '(Term.sym "None")' for b in (e.lower, e.upper)]
+            if e.step is not None:
+                parts.append(self.term(e.step, env))
+            return f"(Term.app \"slice\" [{', '.join(parts)}])"
+        if isinstance(e, ast.Starred):
+            return f"(Term.app \"*\" [{self.term(e.value, env)}])"
+        if isinstance(e, ast.Lambda):
+            env2 = dict(env)
+            params = [a.arg for a in e.args.posonlyargs + e.args.args + e.args.kwonlyargs]
+            for a in params:
+                env2[a] = ("term", f"(Term.sym {lean_str(a)})")
+            self.sym_depth += 1
+            try:
+                body = self.term(e.body, env2)
+            finally:
+                self.sym_depth -= 1
+            return (f"(Term.app \"lambda\" [(Term.app \"params\" [{', '.join('(Term.sym ' + lean_str(a) + ')' for a in params)}]), {body}])")
+        if isinstance(e, (ast.GeneratorExp, ast.ListComp, ast.SetComp, ast.DictComp)):
+            env2 = dict(env)
+            gens = []
+            self.sym_depth += 1
+            try:
+                for i, g in enumerate(e.generators):
+                    if i == 0:
+                        self.sym_depth -= 1          # the first iterable is evaluated in the enclosing scope
+                        it = self.term(g.iter, env2)
+                        self.sym_depth += 1
+                    else:
+                        it = self.term(g.iter, env2)
+                    for n in ast.walk(g.target):
+                        if isinstance(n, ast.Name):
+                            env2[n.id] = ("term", f"(Term.sym {lean_str(n.id)})")
+                    conds = ", ".join(self.term(c, env2) for c in g.ifs)
+                    gens.append(f"(Term.app \"in\" [{self.term(g.target, env2)}, {it}, (Term.app \"if\" [{conds}])])")
+                elt = (f"(Term.app \"pair\" [{self.term(e.key, env2)}, {self.term(e.value, env2)}])" if isinstance(e, ast.DictComp)
+                       else self.term(e.elt, env2))
+            finally:
+                self.sym_depth -= 1
+            return f"(Term.app {lean_str(type(e).__name__)} [{elt}, {', '.join(gens)}])"
         if isinstance(e, (ast.Lambda, ast.GeneratorExp, ast.ListComp, ast.DictComp, ast.SetComp, ast.JoinedStr, ast.Dict, ast.Set)):
             # opaque by text; free local variables would be captured silently, so forbid them
             for n in ast.walk(e):
@@ -282,6 +354,102 @@ class Translator:
             return "(" + op.join(self.test(v, env) for v in elts) + ")"
         return f"truth {self.term(e, env)}"
 
+    # ---- loop bodies: fully symbolic statement terms ---------------------------------------
+    def sym_stmts(self, stmts, env):
+        """statements inside a loop, as a Lean `List Term` expression.  Nothing is evaluated: a test is a term, an
+        assignment binds the name to its term for the rest of the body, `yield` / `continue` / `break` / `return`
+        are nodes."""
+        self.sym_depth += 1
+        try:
+            return self._sym_stmts(stmts, env)
+        finally:
+            self.sym_depth -= 1
+
+    def _sym_stmts(self, stmts, env):
+        out = []
+        env = dict(env)
+        for i, s in enumerate(stmts):
+            if isinstance(s, ast.Expr) and isinstance(s.value, ast.Constant) and isinstance(s.value.value, str):
+                continue
+            if isinstance(s, ast.Pass):
+                continue
+            if isinstance(s, ast.Expr) and isinstance(s.value, ast.Yield):
+                v = s.value.value
+                out.append(f"(Term.app \"yield\" [{self.term(v, env) if v is not None else '(Term.sym \"None\")'}])")
+            elif isinstance(s, ast.Expr) and isinstance(s.value, ast.YieldFrom):
+                out.append(f"(Term.app \"yield-from\" [{self.term(s.value.value, env)}])")
+            elif isinstance(s, ast.Expr):
+                out.append(self.term(s.value, env))
+            elif isinstance(s, ast.Assign) and len(s.targets) == 1 and isinstance(s.targets[0], ast.Name):
+                t = self.term(s.value, env)
+                nm = s.targets[0].id
+                out.append(f"(Term.app \"assign\" [(Term.sym {lean_str(nm)}), {t}])")
+                env[nm] = ("term", f"(Term.sym {lean_str(nm)})")
+            elif isinstance(s, ast.Assign) and len(s.targets) == 1 and isinstance(s.targets[0], (ast.Subscript, ast.Attribute)):
+                tgt = s.targets[0]
+                out.append(f"(Term.app \"store\" [{self.term(tgt, env)}, {self.term(s.value, env)}])")
+            elif isinstance(s, ast.AugAssign) and isinstance(s.target, ast.Name):
+                nm = s.target.id
+                cur = env[nm][1] if nm in env else f"(Term.sym {lean_str(nm)})"
+                t = f"(Term.app {lean_str(type(s.op).__name__ + '=')} [{cur}, {self.term(s.value, env)}])"
+                out.append(f"(Term.app \"assign\" [(Term.sym {lean_str(nm)}), {t}])")
+                env[nm] = ("term", f"(Term.sym {lean_str(nm)})")
+            elif isinstance(s, ast.If):
+                out.append(f"(Term.app \"if\" [{self.term(s.test, env)}, (Term.app \"block\" {self.sym_stmts(s.body, env)}), "
+                           f"(Term.app \"block\" {self.sym_stmts(s.orelse, env)})])")
+            elif isinstance(s, ast.FunctionDef) and not s.decorator_list:
+                # a local function (e.g. the sort key defined per pass): its parameters are bound by name, free names
+                # denote what they denote where it is defined
+                env2 = dict(env)
+                params = [a.arg for a in s.args.posonlyargs + s.args.args + s.args.kwonlyargs]
+                if s.args.vararg or s.args.kwarg or s.args.defaults or s.args.kw_defaults:
+                    raise Unsupported("local function signature: " + s.name)
+                for a in params:
+                    env2[a] = ("term", f"(Term.sym {lean_str(a)})")
+                out.append(f"(Term.app \"def\" [(Term.sym {lean_str(s.name)}), (Term.app \"params\" ["
+                           f"{', '.join('(Term.sym ' + lean_str(a) + ')' for a in params)}]), "
+                           f"(Term.app \"block\" {self.sym_stmts(s.body, env2)})])")
+                env[s.name] = ("term", f"(Term.sym {lean_str(s.name)})")
+            elif isinstance(s, ast.Continue):
+                out.append("(Term.sym \"continue\")")
+            elif isinstance(s, ast.Break):
+                out.append("(Term.sym \"break\")")
+            elif isinstance(s, ast.Return):
+                out.append(f"(Term.app \"return\" [{self.term(s.value, env) if s.value is not None else '(Term.sym \"None\")'}])")
+            elif isinstance(s, ast.For):
+                out.append(self.for_term(s, env))
+            elif isinstance(s, ast.Raise):
+                exc = s.exc.func if isinstance(s.exc, ast.Call) else s.exc
+                out.append(f"(Term.app \"raise\" [(Term.sym {lean_str(ast.unparse(exc) if exc is not None else 're-raise')})])")
+            else:
+                raise Unsupported("statement in a loop body: " + type(s).__name__)
+        return "[" + ", ".join(out) + "]"
+
+    def for_term(self, s, env):
+        if s.orelse:
+            raise Unsupported("for-else")
+        names = [n.id for n in ast.walk(s.target) if isinstance(n, ast.Name)]
+        env2 = dict(env)
+        for n in names:
+            env2[n] = ("term", f"(Term.sym {lean_str(n)})")      # the loop variable, by name
+        # names assigned in the body are loop-carried: inside the body they are referred to by name, and their values
+        # on entry are listed in an "init" node
+        carried = []
+        for n in ast.walk(s):
+            if isinstance(n, (ast.Assign, ast.AugAssign)):
+                for t_ in (n.targets if isinstance(n, ast.Assign) else [n.target]):
+                    if isinstance(t_, ast.Name) and t_.id not in carried and t_.id not in names:
+                        carried.append(t_.id)
+        inits = []
+        for nm in carried:
+            if nm in env:
+                cur = env[nm][1] if env[nm][0] == "term" else f"(Term.int {env[nm][1]})"
+                inits.append(f"(Term.app \"init\" [(Term.sym {lean_str(nm)}), {cur}])")
+            env2[nm] = ("term", f"(Term.sym {lean_str(nm)})")
+        target = self.term(s.target, env2)
+        return (f"(Term.app \"for\" [{target}, {self.term(s.iter, env)}, (Term.app \"block\" {self.sym_stmts(s.body, env2)})"
+                + "".join(", " + i for i in inits) + "])")
+
     # ---- statements -----------------------------------------------------------------------
     def block(self, stmts, env, effs, depth):
         ind = "  " * depth
@@ -292,6 +460,44 @@ class Translator:
             return self.block(rest, env, effs, depth)
         if isinstance(s, ast.Pass):
             return self.block(rest, env, effs, depth)
+        if isinstance(s, ast.Expr) and isinstance(s.value, (ast.Yield, ast.YieldFrom)):
+            # a generator method: what it yields, in order, is part of the effect list
+            v = f"eff{len(effs)}"
+            if isinstance(s.value, ast.Yield):
+                t = f"(Term.app \"yield\" [{self.term(s.value.value, env) if s.value.value is not None else '(Term.sym \"None\")'}])"
+            else:
+                t = f"(Term.app \"yield-from\" [{self.term(s.value.value, env)}])"
+            return f"{ind}let {v} : Term := {t};\n" + self.block(rest, env, effs + [v], depth)
+        if isinstance(s, ast.For):
+            # a loop: one symbolic effect (target, iterable, body); names bound inside do not escape
+            v = f"eff{len(effs)}"
+            code = f"{ind}let {v} : Term := {self.for_term(s, env)};\n"
+            # a name assigned in the loop and used after it (an accumulator) is, afterwards, "its value after that loop"
+            env2 = dict(env)
+            carried = []
+            for n in ast.walk(s):
+                if isinstance(n, (ast.Assign, ast.AugAssign)):
+                    for t_ in (n.targets if isinstance(n, ast.Assign) else [n.target]):
+                        if isinstance(t_, ast.Name) and t_.id not in carried:
+                            carried.append(t_.id)
+            for nm in carried:
+                lv = sanitize(nm) + "'"
+                code += f"{ind}let {lv} : Term := (Term.app \"value-after-loop\" [(Term.sym {lean_str(nm)}), {v}]);\n"
+                env2[nm] = ("term", lv)
+            return code + self.block(rest, env2, effs + [v], depth)
+        if isinstance(s, ast.Assign) and len(s.targets) == 1 and isinstance(s.targets[0], ast.Tuple) \
+                and all(isinstance(e, ast.Name) for e in s.targets[0].elts):
+            # a, b = f(...): each name is a projection of the one value
+            val = self.term(s.value, env)
+            code = ""
+            env2 = dict(env)
+            tv = f"tup{len(env)}_{depth}'"
+            code += f"{ind}let {tv} : Term := {val};\n"
+            for i, e in enumerate(s.targets[0].elts):
+                lv = sanitize(e.id) + "'"
+                code += f"{ind}let {lv} : Term := (Term.app {lean_str('item' + str(i))} [{tv}]);\n"
+                env2[e.id] = ("term", lv)
+            return code + self.block(rest, env2, effs, depth)
         if isinstance(s, ast.Expr):
             # an effect (a call that may raise inside the library): kept, in order, as a let-bound marker
             v = f"eff{len(effs)}"
@@ -308,6 +514,19 @@ class Translator:
             self.assigned.add((ast.unparse(tgt.value), tgt.attr))
             return (f"{ind}let {v} : Term := (Term.app \"setattr\" [{recv}, (Term.sym {lean_str(tgt.attr)}), {val}]);\n"
                     + self.block(rest, env, effs + [v], depth))
+        if isinstance(s, ast.Assign) and len(s.targets) == 1 and isinstance(s.targets[0], ast.Subscript):
+            # `x[key] = value`: an effect; later reads of `x` still denote the object (stores are not replayed)
+            v = f"eff{len(effs)}"
+            t = f"(Term.app \"store\" [{self.term(s.targets[0], env)}, {self.term(s.value, env)}])"
+            return f"{ind}let {v} : Term := {t};\n" + self.block(rest, env, effs + [v], depth)
+        if isinstance(s, ast.AugAssign) and isinstance(s.target, ast.Name):
+            nm = s.target.id
+            cur = env[nm][1] if nm in env else f"(Term.sym {lean_str(nm)})"
+            lv = sanitize(nm) + "'"
+            env2 = dict(env)
+            env2[nm] = ("term", lv)
+            return (f"{ind}let {lv} : Term := (Term.app {lean_str(type(s.op).__name__ + '=')} [{cur}, {self.term(s.value, env)}]);\n"
+                    + self.block(rest, env2, effs, depth))
         if isinstance(s, ast.Assign):
             if len(s.targets) != 1 or not isinstance(s.targets[0], ast.Name):
                 raise Unsupported("assignment target: " + ast.unparse(s))
